@@ -276,13 +276,13 @@ type respSpec struct {
 	BodyLen     int        `json:"body_len"`
 	Chunks      []int      `json:"chunks,omitempty"`
 	Trailers    []h1.Field `json:"trailers,omitempty"`
-	Gzip        bool       `json:"gzip"`          // when the request carries Accept-Encoding: gzip, send the body gzip-coded
-	SSE         bool       `json:"sse"`           // text/event-stream, chunked, events end in \n\n
-	Pauses      []int      `json:"pauses"`        // after chunk/event index k wait for the incremental-delivery check
-	IllegalBody int        `json:"illegal_body"`  // HEAD/204/304: extra body bytes sent anyway
-	SplitCRLF   bool       `json:"split_crlf"`    // write chunk framing so that CRLF pairs straddle writes
-	CloseAfter  bool       `json:"close_after"`   // origin closes its connection after this response
-	HeadTrailer bool       `json:"head_trailer"`  // HEAD reply declaring chunked coding + Trailer
+	Gzip        bool       `json:"gzip"`         // when the request carries Accept-Encoding: gzip, send the body gzip-coded
+	SSE         bool       `json:"sse"`          // text/event-stream, chunked, events end in \n\n
+	Pauses      []int      `json:"pauses"`       // after chunk/event index k wait for the incremental-delivery check
+	IllegalBody int        `json:"illegal_body"` // HEAD/204/304: extra body bytes sent anyway
+	SplitCRLF   bool       `json:"split_crlf"`   // write chunk framing so that CRLF pairs straddle writes
+	CloseAfter  bool       `json:"close_after"`  // origin closes its connection after this response
+	HeadTrailer bool       `json:"head_trailer"` // HEAD reply declaring chunked coding + Trailer
 }
 
 func (r *respSpec) headerOnly(method string) bool {
